@@ -42,3 +42,8 @@ def rcu_null_zombie(info, fn, o):
 @replay.register(r'soh', r'.*removeObject__std_function.*')
 def soh_remove_pred(info, fn, o):
     return run_cpp('soh_remove_pred.cpp')
+
+
+@replay.register(r'delayed_destructor', r'DelayedDestructor(SingleThread)?_vf_obj__destroyObjects__void')
+def dd_function_copy_throws(info, fn, o):
+    return run_cpp('dd_function_copy_throws.cpp')
